@@ -113,6 +113,10 @@ func (conn *Conn) recv() {
 			req := new(SrvReq)
 			select {
 			case req.Rc = <-conn.rchan:
+				// a pooled buffer may have been allocated before msize was negotiated
+				if len(req.Rc.Buf) > int(conn.Msize) {
+					req.Rc.Buf = req.Rc.Buf[:conn.Msize]
+				}
 			default:
 				req.Rc = NewFcall(conn.Msize)
 			}
